@@ -57,6 +57,7 @@ class Query:
     ir2c_opts: list = field(default_factory=list)
     cbmc_opts: list = field(default_factory=list)
     native: bool = True             # can be replayed against the real build
+    native_redirects: dict = field(default_factory=dict)   # symbols the harness overrides in the native replay build as well (the defining object is linked with that symbol weakened)
     desc: str = ""                  # what this query covers, in words (goes to evidence samples)
     opt: str = "-O1"
     expect_witness: bool = True
@@ -493,9 +494,25 @@ def run_query(q, tree, workdir, log, do_replay_witness=True):
 def build_native(q, tree, qd):
     exe = os.path.join(qd, "native")
     D = defs_list(q) + ["-DVFS_N=%d" % q.vfs_n, "-DVFS_CAP=%d" % q.vfs_cap, "-DVF_MAX_ALLOC=%d" % q.max_alloc, "-DVF_ENTRY=" + q.entry, "-DVF_NATIVE"]
-    r = sh([CLANG] + NATFLAGS + D + [os.path.join(HARNESS, q.harness), os.path.join(ENGINE, "vf_native.cpp"), os.path.join(tree, "libop2_native.a"),
-            "-lstdc++fs", "-o", exe])
-    open(os.path.join(qd, "native_build.txt"), "w").write(r.stdout)
+    extra, log = [], ""
+    lib = os.path.join(tree, "libop2_native.a")
+    for sym in q.native_redirects:
+        # the real object that defines `sym`, with that one symbol weakened so the harness's definition (declared under the same
+        # assembler name when VF_NATIVE is set) takes its place; all other code of the object is the real build's
+        nm = sh(["nm", "-A", "--defined-only", lib]).stdout
+        members = sorted({l.split(":")[1] for l in nm.splitlines() if l.rstrip().endswith(" " + sym) and " T " in l})
+        if len(members) != 1:
+            open(os.path.join(qd, "native_build.txt"), "w").write("native redirect: %s defined in %s" % (sym, members)); return None
+        obj = os.path.join(qd, "nr_" + members[0])
+        if not os.path.exists(obj):
+            sh(["ar", "x", lib, members[0]], cwd=qd); os.replace(os.path.join(qd, members[0]), obj)
+        log += sh(["objcopy", "--weaken-symbol=" + sym, obj]).stdout
+        rel = sh(["objdump", "-r", obj]).stdout
+        if sym not in rel:      # the call was inlined in the native object: the override would not take effect
+            open(os.path.join(qd, "native_build.txt"), "w").write("native redirect: no relocated call to %s in %s" % (sym, members[0])); return None
+        if obj not in extra: extra.append(obj)
+    r = sh([CLANG] + NATFLAGS + D + [os.path.join(HARNESS, q.harness), os.path.join(ENGINE, "vf_native.cpp")] + extra + [lib, "-lstdc++fs", "-o", exe])
+    open(os.path.join(qd, "native_build.txt"), "w").write(log + r.stdout)
     return exe if r.returncode == 0 else None
 
 
